@@ -6,6 +6,7 @@ class C14(OptCheck):
     prop = "C14"
     vfiles = ["Properties/Properties_C14.v"]
     corpus = "C14.txt"
+    oracle_args = ("oracle", "C14")
     design_ref = "DESIGN.md section 6, C14"
     technique = "Coq proof: prepare resets every reachable object state, so the k-th call equals a fresh parser's call for all histories + differential run of call histories on one parser object against the spec of each vector alone"
     level_text = ""
@@ -27,10 +28,10 @@ class C14(OptCheck):
             envs = [[]] if dn != "envs" else [[], [("N_OUT", "e"), ("N_A", "off"), ("N_INC", "a;b")]]
             for env in envs:
                 for h in itertools.product(vecs, repeat=2):
-                    yield case(d, env, list(h)), "history-2"
+                    yield case(d, env, list(h), kind="hist"), "history-2"
                 if tier == "thorough":
                     for h in itertools.product(vecs, repeat=3):
-                        yield case(d, env, list(h)), "history-3"
+                        yield case(d, env, list(h), kind="hist"), "history-3"
         shl = shapes()
         for _ in range(6000 if tier == "quick" else 60000):
             name, d = rng.choice(shl) if rng.random() < 0.6 else ("random", random_decl(rng))
@@ -38,6 +39,6 @@ class C14(OptCheck):
             h = []
             for _ in range(rng.randint(2, 4)):
                 h.append(render_assignment(d, rng) if rng.random() < 0.6 else [rng.choice(toks) for _ in range(rng.randint(0, 4))])
-            yield case(d, random_env(d, rng), h), "history-rand"
+            yield case(d, random_env(d, rng), h, kind="hist"), "history-rand"
 
 CHECK = C14
